@@ -55,13 +55,34 @@ def check(rep, tier):
         recs += sr.catalogue(rng, tier, dims=("homogeneous", "spatial_1D"), n0=2, n1=1, confs=["VISF", "shelf"][s_i % 2:] + ["VISF"])
     recs += sr.catalogue(rng, tier, dims=("spatial_1D",), confs=["VISF"], n1=1, early_vacuum=True)
     recs += sr.catalogue(rng, tier, dims=("spatial_2D",), confs=["jacket"] if tier == "quick" else ["jacket", "shelf", "VISF"], n2=1 if tier == "quick" else 3)
+    # histories: (a) the configuration file is re-pointed after construction (other kinetics), then the object is run: the hazard is the one
+    # of the configuration the object reports NOW; (b) a sequential study of two repetitions: the last repetition's field and row
+    for kind in ("repoint", "study"):
+        prog = dict(start=10, end=-50, rate=2.0 / 60, holds=[], t_tot=3600.0, dt=1.0)
+        try:
+            S = sr.make(dim="spatial_1D", conf="shelf", height=0.05, diameter=0.05, K=200, prog=prog, Nrep=2 if kind == "study" else 1)
+            dt, _ = sr.step_info(S)
+            prog["t_tot"] = float(int(dt * 9800))
+            S = sr.make(dim="spatial_1D", conf="shelf", height=0.05, diameter=0.05, K=200, prog=prog, Nrep=2 if kind == "study" else 1)
+            rec = dict(label="spatial_1D/shelf h=0.05 K=200 history: %s" % ("configPath re-pointed to a file with kinetics a=22, b=20 after construction" if kind == "repoint" else "sequential study Nrep=2, last repetition"),
+                       dim="spatial_1D", conf="shelf", S=S, dt=dt, prog=prog, error=None, row=-1 if kind == "study" else 0, seed=1 if kind == "study" else 0)
+            with impl.quiet():
+                if kind == "repoint":
+                    S.configPath = impl.cfg_path(sr.make_over("spatial_1D", "shelf", 0.05, 0.05, {"kinetics": {"a": 22.0, "b": 20.0}}))
+                    S.run()
+                else:
+                    S.run(how="sequential")
+        except Exception as e:
+            rec = dict(label="history %s" % kind, dim="spatial_1D", conf="shelf", S=None, dt=None, error=e)
+            rep.violation("history-crash %s" % type(e).__name__, "history %s raises %r" % (kind, e), dict(history=kind))
+        recs.append(rec)
     cases, labs, certs = [], [], []
     for rec in recs:
-        S, dt, lab, c = rec["S"], rec["dt"], rec["label"], rec["S"].const
         if rec["error"] is not None:
-            rep.case(lab, nontrivial=False); rep.count("raised"); continue
-        seed = 0
-        res = S.results.iloc[0]
+            rep.case(rec["label"], nontrivial=False); rep.count("raised"); continue
+        S, dt, lab, c = rec["S"], rec["dt"], rec["label"], rec["S"].const
+        seed = rec.get("seed", 0)
+        res = S.results.iloc[rec.get("row", 0)]
         kb = kb_of(c)
         Teql = c["T_eq"] + 273.15 - c["depression"]
         T = np.asarray(S.temp) + 273.15
